@@ -44,11 +44,45 @@ func (P) Monitor(c *hx.CaseRun) []hx.Failure {
 	allFailed, prevBal := false, ""
 	xm := newXMon()
 	sm := &sysMon{}
-	subUnit := map[string]string{} // tx id -> the `ain` op whose account input is zero or not a whole number of units
+	tokCase, tokUnit, tokSupply := false, "", "" // a chain with token confidential transactions: the token supply includes the token pool (`tbal`)
+	subUnit := map[string]string{}               // tx id -> the `ain` op whose account input is zero or not a whole number of units
 	for i, op := range c.Ops {
 		ans := c.Impl[i]
 		toks_ := hx.Tokens(op)
 		fs = append(fs, xm.step(op, toks_, ans)...)
+		switch toks_[0] {
+		case "case", "chain":
+			tokCase, tokUnit, tokSupply = false, "", ""
+		case "tokchain":
+			tokCase, tokSupply = true, ""
+			d, _ := hx.Arg(toks_, "tokdec")
+			var di int
+			fmt.Sscan(d, &di)
+			tokUnit = appsim.TokenUnit(di).String()
+		case "tain", "tua", "tuu":
+			admitted := strings.Contains(ans, "admit=ok")
+			if r, ok := hx.Arg(toks_, "rem"); ok && admitted {
+				rv, _ := new(big.Int).SetString(r, 10)
+				u, _ := new(big.Int).SetString(tokUnit, 10)
+				if rv != nil && u != nil && new(big.Int).Mod(rv, u).Sign() != 0 {
+					fs = append(fs, hx.Failure{Monitor: "amount_range_enforced", Class: "sub-unit-token-amount-admitted", Site: "types/tx_utxo.go:checkTxSemantic",
+						Msg: "a token confidential transaction whose account-side amount is not a whole number of the TOKEN's commitment units (" + tokUnit + ") was admitted: " + op})
+				}
+			}
+			if l, _ := hx.Arg(toks_, "lie"); l == "1" && admitted && tokUnit != "10000000000" {
+				fs = append(fs, hx.Failure{Monitor: "token_unit_enforced", Class: "token-unit-mismatch-admitted", Site: "types/tx_utxo.go:checkCommitEqual",
+					Msg: "a withdrawal from the token pool whose account output is written in the NATIVE unit (hidden units x 1e10) while the token's unit is " + tokUnit + " was admitted: it pays out 1e10/unit times what was hidden: " + op})
+			}
+		case "tbal":
+			if strings.HasPrefix(ans, "t=") {
+				ts, _ := hx.Arg(hx.Tokens(ans), "toksupply")
+				if tokSupply != "" && ts != tokSupply {
+					fs = append(fs, hx.Failure{Monitor: "token_supply_conserved", Class: "token-supply-changed", Site: "types/tx_utxo.go:checkCommitEqual",
+						Msg: fmt.Sprintf("the token supply — account balances plus the token pool as its owners see it, hidden units x the unit the chain was built with (%s) — changed from %s to %s (units of 1e10 base units)", tokUnit, tokSupply, ts)})
+				}
+				tokSupply = ts
+			}
+		}
 		fs = append(fs, sm.step(op, toks_, ans)...)
 		if v, ok := hx.Arg(toks_, "claim"); ok && v != "" {
 			claim = true
@@ -137,7 +171,7 @@ func (P) Monitor(c *hx.CaseRun) []hx.Failure {
 					Msg: fmt.Sprintf("total native supply (accounts + foundation + zero address + coinbase + confidential pool) changed from %s to %s units", supply, s)})
 				supply = s
 			}
-			if t != toks {
+			if t != toks && !tokCase {
 				fs = append(fs, hx.Failure{Monitor: "token_supply_conserved", Class: "token-supply-changed", Site: "app/state_transition.go",
 					Msg: fmt.Sprintf("total token supply changed from %s to %s units", toks, t)})
 				toks = t
@@ -302,6 +336,12 @@ func (P) Generate(g *hx.Gen) {
 	}
 	for k, ns := 0, g.Pick(30, 200); k < ns; k++ {
 		g.Case("account inputs that are not a whole number of commitment units", WithReceipts(SubUnitCase(g)), true)
+	}
+	for k, ns := 0, g.Pick(24, 160); k < ns; k++ {
+		g.Case("token confidential transactions, token units 1 / 1e6 / 1e10 / 1e18", WithReceipts(TokCase(g, k)), true)
+	}
+	for k, ns := 0, g.Pick(15, 100); k < ns; k++ {
+		g.Case("forced blocks with off-nonce transactions of every nonce-consuming kind", WithReceipts(NonceGapCase(g)), true)
 	}
 	for k, ns := 0, g.Pick(4, 16); k < ns; k++ {
 		g.Case("real genesis: system contracts, elections, awards", WithReceipts(SysCase(g)), true)
@@ -1208,4 +1248,278 @@ func (m *sysMon) step(op string, toks []string, ans string) []hx.Failure {
 		}
 	}
 	return fs
+}
+
+// NonceGapCase: forced blocks (what a Byzantine proposer can assemble) carrying transactions of EVERY nonce-consuming kind —
+// account->confidential (`ain`), token transfer, contract call, creation, value-moving call, plain transfer — whose nonce is
+// the sender's state nonce + 1, + 2 or - 1: alone (invalid), BEHIND the transaction that closes the gap in the same block
+// (legal), before it (invalid), twice in one block, re-forced in a later block and after a restart.  Ids are exact.  After every
+// block: `bal` and `nonces`.
+func NonceGapCase(g *hx.Gen) []string {
+	r := g.Rng
+	ops := []string{hx.CaseOp("noncegap"), fmt.Sprintf("chain trie=%d accts=3 wallets=2 seed=%d code=2", r.Intn(2), 1+r.Intn(1000)), "bal"}
+	add := func(f string, a ...interface{}) { ops = append(ops, fmt.Sprintf(f, a...)) }
+	nonce := []int{0, 0, 0}
+	id := 0
+	build := func(kind string, from, n int) int {
+		switch kind {
+		case "ain":
+			add("ain from=%d w=%d amount=%d nonce=%d", from, r.Intn(2), 30000000000+r.Intn(1000)*10000, n)
+		case "xfertok":
+			add("xfertok from=%d to=%d amount=%d nonce=%d", from, r.Intn(3), 1+r.Intn(100), n)
+		case "call":
+			add("call from=%d c=%d nonce=%d", from, []int{3, 255}[r.Intn(2)], n)
+		case "create":
+			// (no endowment, no value kept by a contract: this stream observes with `bal`, which sums accounts, foundation, zero address and pool)
+			add("create from=%d kind=%s nonce=%d value=0 gas=3000000", from, []string{"ok", "revert", "empty"}[r.Intn(3)], n)
+		case "mcall":
+			add("mcall from=%d nonce=%d m=%d to=a%d value=%d gas=3000000", from, n, []int{1, 5}[r.Intn(2)], r.Intn(3), 2*r.Intn(100))
+		default:
+			add("xfer from=%d to=%d amount=%d nonce=%d", from, r.Intn(3), 1+r.Intn(1000), n)
+		}
+		id++
+		return id - 1
+	}
+	kinds := []string{"ain", "ain", "ain", "xfertok", "call", "create", "mcall", "xfer"}
+	var stale []int // committed, or left behind the state nonce: must never be committed (again)
+	after := func() { add("bal"); add("nonces") }
+	for k, n := 0, 3+r.Intn(g.Pick(3, 5)); k < n; k++ {
+		from := r.Intn(3)
+		kind := kinds[r.Intn(len(kinds))]
+		g.Count("noncegap:" + kind)
+		switch r.Intn(6) {
+		case 0: // state nonce + 1 alone: invalid; then the gap is closed in the same block, in the legal order
+			a := build(kind, from, nonce[from]+1)
+			add("forceblock ids=%d", a)
+			after()
+			c := build(kinds[r.Intn(len(kinds))], from, nonce[from])
+			if r.Intn(2) == 0 {
+				add("forceblock ids=%d,%d", a, c) // the wrong order: invalid
+			}
+			add("forceblock ids=%d,%d", c, a)
+			nonce[from] += 2
+			stale = append(stale, a, c)
+		case 1: // + 2 alone, then behind only ONE of the two missing: still a gap
+			a := build(kind, from, nonce[from]+2)
+			add("forceblock ids=%d", a)
+			c := build("xfer", from, nonce[from])
+			add("forceblock ids=%d,%d", c, a)
+			add("forceblock ids=%d", c)
+			nonce[from]++
+			stale = append(stale, c)
+			add("forceblock ids=%d", a) // now it is state nonce + 1: invalid
+		case 2: // - 1 (a nonce already used)
+			c := build("xfer", from, nonce[from])
+			add("forceblock ids=%d", c)
+			nonce[from]++
+			stale = append(stale, c)
+			a := build(kind, from, nonce[from]-1)
+			add("forceblock ids=%d", a)
+			stale = append(stale, a)
+		case 3: // the exact nonce twice in one block, then once, then again
+			a := build(kind, from, nonce[from])
+			add("forceblock ids=%d,%d", a, a)
+			add("forceblock ids=%d", a)
+			nonce[from]++
+			add("forceblock ids=%d", a)
+			stale = append(stale, a)
+		case 4: // + 1 forced, the gap closed by a block of its own, then the + 1 transaction forced: legal now; then re-forced
+			a := build(kind, from, nonce[from]+1)
+			add("forceblock ids=%d", a)
+			c := build("xfer", from, nonce[from])
+			add("forceblock ids=%d", c)
+			add("forceblock ids=%d", a)
+			nonce[from] += 2
+			stale = append(stale, a, c)
+			add("forceblock ids=%d", a)
+		default: // something that must stay dead: re-forced, replayed, after a restart
+			if len(stale) == 0 {
+				continue
+			}
+			d := stale[r.Intn(len(stale))]
+			if r.Intn(2) == 0 {
+				add("restart")
+			}
+			add("forceblock ids=%d", d)
+			add("replay id=%d", d)
+			add("block")
+			if len(stale) > 1 {
+				add("forceblock ids=%d,%d", stale[r.Intn(len(stale))], d)
+			}
+		}
+		after()
+	}
+	return ops
+}
+
+// TokCase: confidential transactions OF A TOKEN whose commitment unit the node derives from the token contract's decimals():
+// 1 (8 decimals), 1e6 (14), 1e10 (18, the native unit) or 1e18 (26) — below, equal to and above the native one.  account ->
+// token pool (`tain`), pool -> pool (`tuu`), pool -> account (`tua`, also whole outputs), amounts that are not a whole number
+// of the TOKEN's unit (`rem=`), a withdrawal whose account output is written in the NATIVE unit (`lie=1`), a second spend of a
+// spent token output, mixed with native confidential transactions and token transfers in the same blocks.  Amounts are
+// multiples of 1e10/unit token units where the unit is below 1e10, so that the account side stays whole in the printed unit.
+func TokCase(g *hx.Gen, seq int) []string {
+	r := g.Rng
+	d := []int{8, 14, 18, 26}[seq%4]
+	unit := appsim.TokenUnit(d)
+	k := int64(1)
+	if unit.Cmp(big.NewInt(10000000000)) < 0 {
+		k = new(big.Int).Div(big.NewInt(10000000000), unit).Int64()
+	}
+	g.Count(fmt.Sprintf("tok:unit=%s", unit))
+	ops := []string{hx.CaseOp("tok"), fmt.Sprintf("tokchain trie=%d accts=3 wallets=2 seed=%d code=1 tokdec=%d tbal=100000000000000", r.Intn(2), 1+r.Intn(1000), d), "bal", "tbal"}
+	add := func(f string, a ...interface{}) { ops = append(ops, fmt.Sprintf(f, a...)) }
+	nonce := []int{0, 0, 0}
+	type out struct {
+		amt  int64
+		used bool
+	}
+	tw := [][]*out{nil, nil} // token wallets as they will look after the next block
+	var pendingOuts [][2]int64
+	natOwned, natSpent := 0, map[int]bool{}
+	rems := func() int64 {
+		u := unit.Int64()
+		return []int64{1, u / 2, u - 1}[r.Intn(3)]
+	}
+	id := 0
+	var spends []int
+	for b, nb := 0, 4+r.Intn(g.Pick(3, 5)); b < nb; b++ {
+		natNew := 0
+		for t, nt := 0, 1+r.Intn(3); t < nt; t++ {
+			from := r.Intn(3)
+			pick := func() (int, int) { // an unspent token output
+				w := r.Intn(2)
+				for _, ww := range []int{w, 1 - w} {
+					for i, o := range tw[ww] {
+						if !o.used {
+							return ww, i
+						}
+					}
+				}
+				return -1, -1
+			}
+			part := func(o *out) int64 { // a part of the output, a multiple of k
+				am := (1 + r.Int63n(o.amt/k)) * k
+				if am > o.amt {
+					am = o.amt
+				}
+				return am
+			}
+			switch c := r.Intn(14); {
+			case c < 3 || (c < 7 && len(tw[0])+len(tw[1]) == 0):
+				w := r.Intn(2)
+				am := int64(100+r.Intn(900)) * k
+				add("tain from=%d w=%d amount=%d nonce=%d", from, w, am, nonce[from])
+				nonce[from]++
+				id++
+				pendingOuts = append(pendingOuts, [2]int64{int64(w), am})
+			case c == 3:
+				if unit.Cmp(big.NewInt(1)) > 0 { // not a whole number of the token's units: refused
+					add("tain from=%d w=%d amount=%d nonce=%d rem=%d", from, r.Intn(2), int64(100+r.Intn(900))*k, nonce[from], rems())
+					id++
+					g.Count("tok:tain-rem")
+				}
+			case c < 6:
+				if w, i := pick(); w >= 0 {
+					o := tw[w][i]
+					am := part(o)
+					to := r.Intn(2)
+					add("tuu w=%d in=%d to=%d amount=%d payer=%d", w, i, to, am, from)
+					spends = append(spends, id)
+					id++
+					o.used = true
+					pendingOuts = append(pendingOuts, [2]int64{int64(to), am})
+					if o.amt-am > 0 {
+						pendingOuts = append(pendingOuts, [2]int64{int64(w), o.amt - am})
+					}
+					g.Count("tok:tuu")
+				}
+			case c < 9:
+				if w, i := pick(); w >= 0 {
+					o := tw[w][i]
+					if r.Intn(3) == 0 {
+						add("tua w=%d in=%d to=%d all=1 payer=%d", w, i, r.Intn(3), from)
+						g.Count("tok:tua-all")
+					} else {
+						am := part(o)
+						add("tua w=%d in=%d to=%d amount=%d payer=%d", w, i, r.Intn(3), am, from)
+						if o.amt-am > 0 {
+							pendingOuts = append(pendingOuts, [2]int64{int64(w), o.amt - am})
+						}
+						g.Count("tok:tua")
+					}
+					spends = append(spends, id)
+					id++
+					o.used = true
+				}
+			case c == 9 || c == 13: // the account output written in the native unit: refused unless the token's unit IS the native one
+				if w, i := pick(); w >= 0 {
+					o := tw[w][i]
+					am := part(o)
+					add("tua w=%d in=%d to=%d amount=%d payer=%d lie=1", w, i, r.Intn(3), am, from)
+					if d == 18 { // the honest transaction
+						spends = append(spends, id)
+						o.used = true
+						if o.amt-am > 0 {
+							pendingOuts = append(pendingOuts, [2]int64{int64(w), o.amt - am})
+						}
+					}
+					id++
+					g.Count("tok:tua-native-unit")
+				}
+			case c == 10: // an account output that is not a whole number of the token's units (the change gives the remainder up)
+				if w, i := pick(); w >= 0 && unit.Cmp(big.NewInt(1)) > 0 && tw[w][i].amt > k {
+					add("tua w=%d in=%d to=%d amount=%d payer=%d rem=%d", w, i, r.Intn(3), k, from, rems())
+					id++
+					g.Count("tok:tua-rem")
+				}
+			case c == 11: // a second spend of a token output already used by a pending or committed transaction
+			second:
+				for w := 0; w < 2; w++ {
+					for i, o := range tw[w] {
+						if o.used {
+							add("tuu w=%d in=%d to=%d amount=%d payer=%d", w, i, r.Intn(2), k, from)
+							id++
+							g.Count("tok:second-spend")
+							break second
+						}
+					}
+				}
+			case c == 12: // native confidential transactions in the same block
+				if natOwned > 0 && !natSpent[natOwned-1] {
+					add("uu w=0 in=%d to=1 amount=%d", natOwned-1, 1+r.Intn(1000000))
+					natSpent[natOwned-1] = true
+					id++
+					natNew++
+				} else {
+					add("ain from=%d w=0 amount=%d nonce=%d", from, 30000000000+r.Intn(1000)*10000, nonce[from])
+					nonce[from]++
+					id++
+					natNew++
+				}
+				g.Count("tok:native-confidential-mixed")
+			default:
+				add("xfertok from=%d to=%d amount=%d nonce=%d", from, r.Intn(3), 1+r.Intn(1000), nonce[from])
+				nonce[from]++
+				id++
+			}
+		}
+		add("block")
+		for _, po := range pendingOuts {
+			tw[po[0]] = append(tw[po[0]], &out{amt: po[1]})
+		}
+		pendingOuts = nil
+		natOwned += natNew
+		add("bal")
+		add("tbal")
+	}
+	if len(spends) > 0 { // a committed token spend offered again: the key-image set is ONE set for all tokens
+		s := spends[r.Intn(len(spends))]
+		add("replay id=%d", s)
+		add("forceblock ids=%d", s)
+		add("block")
+		add("tbal")
+	}
+	add("nonces")
+	return ops
 }
